@@ -26,6 +26,21 @@ def gen_blocks(rng):
         blocks.append((tr, body))
     return blocks
 
+SLUR_TEXTS = ["l4 c&d e", "e&g a", "Slur(1) c&e g", "c&c d", "Slur(0,24) d&f", "c&d&e f", "BR(12) c&e", "@3 c", "y1,5 c d", "Slur(2) e&g", "PB(100) c", "r4 g&a", "Slur(3) c&e&g"]
+def gen_text_blocks(rng):
+    """blocks of slurred groups, on tracks that share MIDI channels (tracks 0 and 1 do by default; others by CH=): what a track writes for
+    its own slur (bend range, bends) must not depend on what another track on that channel wrote"""
+    nums = rng.sample([0, 1, 2, 3, 5, 9], rng.choice([2, 2, 3]))
+    ch = rng.randrange(1, 17); shared = rng.random() < 0.7
+    blocks = []; first = set()
+    for _ in range(rng.randrange(len(nums), len(nums) * 3)):
+        tr = rng.choice(nums)
+        txt = " ".join(rng.choice(SLUR_TEXTS) for _ in range(rng.randrange(1, 3)))
+        if tr not in first and shared and not (set(nums) <= {0, 1} and rng.random() < 0.5): txt = "CH=%d %s" % (ch, txt)
+        first.add(tr)
+        blocks.append((tr, [('raw', txt + ";")]))
+    return blocks
+
 def permute(rng, blocks):
     """shuffle keeping the relative order of blocks of the same track"""
     order = [b[0] for b in blocks]
@@ -52,6 +67,11 @@ def streams(tier, rng, P, only=None, cases=None):
             p1 = to_prog(blocks); p2 = to_prog(permute(rng, blocks))
             s1 = mml.pr(p1); s2 = mml.pr(p2)
             cs.append(dict(req="compile2 %s %s" % (hx(s1), hx(s2)), src=s1, src2=s2, show=s1[:300], sexp=mml.sexp(p1), ntr=len(set(b[0] for b in blocks)), key="p%d" % i))
+        for i in range(n // 4):
+            blocks = gen_text_blocks(rng)
+            p1 = to_prog(blocks); p2 = to_prog(permute(rng, blocks))
+            s1 = mml.pr(p1); s2 = mml.pr(p2)
+            cs.append(dict(req="compile2 %s %s" % (hx(s1), hx(s2)), src=s1, src2=s2, show=s1[:300], sexp=None, ntr=len(set(b[0] for b in blocks)), key="pt%d" % i))
         for j, (a, b) in enumerate([("TR(3) c TR(2) d TR(1) e", "TR(1) e TR(2) d TR(3) c")]):
             cs.append(dict(req="compile2 %s %s" % (hx(a), hx(b)), src=a, src2=b, show=a, sexp=None, ntr=3, key="fixed%d" % j))
         return cs
@@ -81,6 +101,12 @@ def streams(tier, rng, P, only=None, cases=None):
             p1 = to_prog(blocks); p2 = to_prog([b for b in blocks if b[0] == k])
             s1_, s2_ = mml.pr(p1), mml.pr(p2)
             cs.append(dict(req="run2 %s %s" % (hx(s1_), hx(s2_)), src=s1_, src2=s2_, show=s1_[:300], k=k, ntr=len(set(b[0] for b in blocks)), key="a%d" % i))
+        for i in range(n // 4):
+            blocks = gen_text_blocks(rng)
+            k = rng.choice(sorted(set(b[0] for b in blocks)))
+            p1 = to_prog(blocks); p2 = to_prog([b for b in blocks if b[0] == k])
+            s1_, s2_ = mml.pr(p1), mml.pr(p2)
+            cs.append(dict(req="run2 %s %s" % (hx(s1_), hx(s2_)), src=s1_, src2=s2_, show=s1_[:300], k=k, ntr=len(set(b[0] for b in blocks)), key="at%d" % i))
         for j, (a, b, k) in enumerate([("TR=1 l4 c TR=2 l4 d TimeSignature=3,4 e", "TR=2 l4 d TimeSignature=3,4 e", 2), ("TR(1) Tempo(90) c TR(0) d", "TR(1) Tempo(90) c", 1)]):
             cs.append(dict(req="run2 %s %s" % (hx(a), hx(b)), src=a, src2=b, show=a, k=k, ntr=2, key="afixed%d" % j))
         return cs
